@@ -705,7 +705,7 @@ def check_C11(ctx):
 
 def check_C12(ctx):
     t = ctx.tier
-    gens = ["Comments_gen%s_%s.cfg" % (k, t) for k in ("Tag", "List", "Lay", "Lay2")]
+    gens = ["Comments_gen%s_%s.cfg" % (k, t) for k in ("Tag", "List", "Lay", "Lay2", "Lay3")]
     res = run_family(ctx, "comments", "Comments", gens, "CommentsTrace", rand_n=2000 if ctx.quick() else 20000,
                      a_cfgs=["Comments_A_%s.cfg" % t, "Comments_A2_%s.cfg" % t], shard=6000)
     fails = vlib.collect_failures(res["trace"], res["bad"], "comments", only_prefix="C12")
